@@ -81,6 +81,8 @@ def tag_of(op):
         return a.value.data
     if isinstance(op, linalg.GenericOp) and op.doc is not None:
         return op.doc.data
+    if isinstance(op, memref.CopyOp):
+        return ("copy-inserted-by-pass",)
     raise HarnessError(f"{op.name} without a site tag")
 
 
